@@ -134,3 +134,111 @@ def local_first(ctx):
     finally:
         shutil.rmtree(d, ignore_errors=True)
     ctx.sample({"paths": E.paths})
+
+
+# ---------------------------------------------------------------------------------------
+# O2: remote external project: entity URLs are A's own relative URLs re-based on the given location
+# ---------------------------------------------------------------------------------------
+REMOTES = ["https://docs.example.org/projA/doc", "https://docs.example.org/projA/doc/", "https://host.org", "http://host.org/",
+           "https://host.org/a"]
+
+
+def _rebase(url, rel):
+    return (url if url.endswith("/") else url + "/") + rel
+
+
+def _exported_rel(data):
+    """relative URLs under which A exported module geom and type shape (read from A's real modules.json)"""
+    import json
+    mods = json.loads(data)["modules"]
+    g = [m for m in mods if m["name"] == "geom"][0]
+    t = [x for x in g.get("types", []) if x and x["name"] == "shape"][0]
+    strip = lambda u: u.split("/", 1)[-1]
+    return strip(g["external_url"]), strip(t["external_url"])
+
+
+def _observe_remote(p):
+    app = [m for m in p.modules if choice.apply(lambda n: str(n).lower() == "app", m.name) is True][0]
+    mods = [u for u in app.uses if hasattr(u, "external_url")]
+    vs = list(app.variables)
+    return {"geom": [choice.apply(str, u.external_url) for u in mods if choice.apply(lambda n: str(n).lower() == "geom", u.name) is True],
+            "shape": choice.apply(str, getattr(vs[-1].proto[0], "external_url", None))}
+
+
+def _b_remote():
+    return {"b.f90": ["module app", "use geom", "type(shape) :: w", "end module app"]}
+
+
+class _Resp:
+    def __init__(self, data):
+        self.data = data
+
+    def read(self):
+        return self.data
+
+
+def replay_remote(w):
+    import ford.external_project as ep
+
+    d = _export_a()
+    orig = ep.urlopen
+    try:
+        data = open(os.path.join(d, "modules.json"), "rb").read()
+        ep.urlopen = lambda u, *a, **k: _Resp(data)
+        with contextlib.redirect_stdout(io.StringIO()), contextlib.redirect_stderr(io.StringIO()):
+            p = parserh.project_concrete(_b_remote(), external={"a": w["url"]}, **PSET)
+        got = _observe_remote(p)
+    finally:
+        ep.urlopen = orig
+        shutil.rmtree(d, ignore_errors=True)
+    rg, rt = _exported_rel(data)
+    want = {"geom": [_rebase(w["url"], rg)], "shape": _rebase(w["url"], rt)}
+    return got != want, {"external": w["url"], "ford": got, "re-based_urls": want}
+
+
+@obligation("C16", "O2.remote-url-rebasing", engine="SX(CV)", timeout=900)
+def remote(ctx):
+    """links into a remote external project = the project's location (with or without trailing slash, with or without a path) joined
+    with the entity's exported relative URL"""
+    import ford.external_project as ep
+    import urllib.parse
+
+    ctx.encode_fn(ep.load_external_modules)
+    ctx.encode_fn(ep.dict2obj)
+    ctx.stubs.append("urlopen replaced by a stub serving A's real modules.json (no network)")
+    ctx.bounds.update({"locations": REMOTES})
+    d = _export_a()
+    data = open(os.path.join(d, "modules.json"), "rb").read()
+    rg, rt = _exported_rel(data)
+    try:
+        def h(E):
+            url = CV.choice(E, "url", REMOTES)
+            E.e.snapshot = lambda m: {"url": choice.value_in_model(m, url)}
+            extra_mods = (ep,)
+            # the stubbed urlopen and urljoin are evaluated per choice by the real urllib
+            ep_extra = {(ep, "urlopen"): parserh.pointwise(lambda u, *a, **k: _Resp(data)),
+                        (ep, "urljoin"): parserh.pointwise(urllib.parse.urljoin)}
+            from fv import patch as _patch
+            with _patch.patched(ep, extra=ep_extra):
+                with contextlib.redirect_stdout(io.StringIO()), contextlib.redirect_stderr(io.StringIO()):
+                    got = parserh.project(_b_remote(), post=_observe_remote, external={"a": url}, **PSET)
+            E.reachable("loaded")
+            E.require(choice.apply(lambda n: n == 1, len(got["geom"])), "used external module not linked")
+            E.require(choice.apply(lambda g, u: g == _rebase(u, rg), got["geom"][0], url), "module URL not re-based on the project's location")
+            E.require(choice.apply(lambda g, u: g == _rebase(u, rt), got["shape"], url), "type URL not re-based on the project's location")
+
+        E = sym.Engine(ctx, max_paths=2000, incremental=True)
+        found = E.explore(h)
+        seen = set()
+        for (label, m, pc), snap in zip(found, E.snapshots):
+            if label in seen:
+                continue
+            seen.add(label)
+            ctx.report(label, snap, replay_remote)
+        if E.reached.get("loaded"):
+            ctx.twins += 1
+        else:
+            ctx.inconclusive.append("vacuity: external project never loaded")
+    finally:
+        shutil.rmtree(d, ignore_errors=True)
+    ctx.sample({"paths": E.paths})
